@@ -611,3 +611,5 @@ V("S4-wccn-scale-two", ["C14"], "wccn", "scaled_Sw = 1 / n_classes * Sw", "scale
 V("S4-wccn-divide-two", ["C14"], "wccn", "self.input_divide = 1.0", "self.input_divide = 2.0", "fitted WCCN divides the input by two")
 V("S4-mapweights-coef", ["C05"], "gmm", "alpha * ml_weights + (1 - alpha) * machine.ubm.weights", "alpha * ml_weights + (2 - alpha) * machine.ubm.weights", "prior weights weighted by (2 - alpha)")
 V("S4-wccn-scale-division", ["C14"], "wccn", "scaled_Sw = 1 / n_classes * Sw", "scaled_Sw = Sw / n_classes", "scaling spelled as a division", kind="benign")
+V("R1-noevidence-threshold-const", ["C05"], "gmm", "machine.means = np.where(statistics.n[:, None] < mean_var_update_threshold, machine.ubm.means, new_means)", "machine.means = np.where(statistics.n[:, None] < EPSILON, machine.ubm.means, new_means)", "no-evidence test against a module constant instead of the configured threshold (seeded C15-s1)")
+V("R1-noevidence-named-mask", ["C05"], "gmm", "machine.means = np.where(statistics.n[:, None] < mean_var_update_threshold, machine.ubm.means, new_means)", "unseen = statistics.n[:, None] < mean_var_update_threshold\n        machine.means = np.where(unseen, machine.ubm.means, new_means)", "the mask bound to a name first", kind="benign")
